@@ -371,7 +371,8 @@ fn run_transport(
     let mut clients_to_remove = Vec::new();
     let mut metadata = HashMap::new();
     let mut next_token = START_TOKEN;
-    let mut buffered_pmsgs = VecDeque::with_capacity(buffer_limit);
+    // With no configured limit, `buffer_limit` is `usize::MAX`, which is not a capacity we can preallocate.
+    let mut buffered_pmsgs = VecDeque::with_capacity(buffer_size.unwrap_or(1024));
 
     loop {
         let _span = trace_span!("transport");
